@@ -530,8 +530,10 @@ class Gen:
     def stmt_printf(self, scope):
         parts, args, named = [], [], []
         numbered = self.chance(0.15)
-        count = self.rng.randint(1, 4)
+        count = self.rng.randint(0, 4) if self.profile == 'print' else self.rng.randint(1, 4)
         positional = 0
+        if count == 0:
+            parts.append(self.pick(['working', 'step ', '--', 'a b c']))       # text only: no field, no value
         for idx in range(count):
             if self.chance(0.3):
                 parts.append(self.pick(['v=', 'x ', ' | ', ', ', 'Light: ']))
@@ -559,6 +561,9 @@ class Gen:
                     e, spec = self.num_expr(scope, 'E', 1), self.pick(['', '', ':>6', ':<5'])
                 if self.chance(0.2):
                     e, spec = self.str_atom(scope), self.pick(['', ':>10', ':<9s'])
+                    if self.profile == 'print' and self.chance(0.4):
+                        # text that looks like format syntax or an escape is still just a value
+                        e = A.string(self.pick(['C:\\new\\notes', 'a\\nb', '{}', '{0}', '{hue}', '100%', 'tab\\there', '}{']))
                 parts.append('{%s%s}' % (positional if numbered else '', spec))
                 args.append(e)
                 positional += 1
@@ -861,7 +866,7 @@ class Gen:
         scope = Scope()
         stmts = []
         nroutines = {'routines': self.rng.randint(1, 4), 'general': self.rng.randint(0, 2), 'nested': self.rng.randint(0, 2),
-                     'loops': self.rng.randint(0, 1)}.get(self.profile, 0)
+                     'loops': self.rng.randint(0, 1), 'print': self.rng.randint(0, 2)}.get(self.profile, 0)
         # a few globals first so that routines have something to collide with
         for _ in range(self.rng.randint(0, 3)):
             stmts.append(self.stmt_assign(scope))
